@@ -484,7 +484,12 @@ func DistinctScore(labels []string, stores []*StoreInfo, other *StoreInfo) float
 // MergeLabels merges the passed in labels with origins, overriding duplicated
 // ones.
 func (s *StoreInfo) MergeLabels(labels []*metapb.StoreLabel) []*metapb.StoreLabel {
-	storeLabels := s.GetLabels()
+	// Work on a copy: the store may be the one being served, and the caller may
+	// still reject the update or fail to persist it.
+	storeLabels := make([]*metapb.StoreLabel, 0, len(s.GetLabels())+len(labels))
+	for _, label := range s.GetLabels() {
+		storeLabels = append(storeLabels, &metapb.StoreLabel{Key: label.Key, Value: label.Value})
+	}
 L:
 	for _, newLabel := range labels {
 		for _, label := range storeLabels {
